@@ -152,6 +152,12 @@ def Counts.get : Counts → List Nat → Nat
 def getCounts (shots : List (List Nat)) : Counts :=
   shots.foldl (fun acc t => Counts.bump acc (tupleToBitstring t)) []
 
+/-- `Measurements.get_distribution`: `counts[bitstring] / len(self.bitstrings)` per count string, in the order of
+    `get_counts` (on a normalised dict the `MeasurementOutcomeDistribution` constructor keeps keys, order and values;
+    the keys are stored as tuples of the digits). -/
+def getDistribution (shots : List (List Nat)) : List (List Nat × Rat) :=
+  (getCounts shots).map (fun p => (p.1, (p.2 : Rat) / (shots.length : Rat)))
+
 /-- one row of `check_parity_of_vector`: `1` iff an even number of the marked positions hold a 1;
     `none` = `IndexError` (a marked position beyond the row). -/
 def parityEven (marked : List Nat) (row : List Nat) : Option Nat :=
